@@ -267,30 +267,34 @@ let err_text = function
 
 (* C16: the schedule is run by the Gallina slot model; failing calls print rc=-1 *)
 let run_schedule (steps : string) : string =
-  let ops =
+  (* 'f' = failing call with an error pointer, 'n' = the same call without one (the code then leaves the thread's slot alone: no
+     operation of the slot model), 'r' = read *)
+  let parsed =
     List.map
       (fun s ->
         match split_on ':' s with
         | [t; a] ->
           let t = nat_of_int (int_of_string t) in
-          if a.[0] = 'f' then CFail (t, n_of_int (1 + (int_of_string (String.sub a 1 (String.length a - 1)) mod 13)))
-          else CRead t
+          if a.[0] = 'f' then ('f', Some (CFail (t, n_of_int (1 + (int_of_string (String.sub a 1 (String.length a - 1)) mod 13)))))
+          else if a.[0] = 'n' then ('n', None)
+          else ('r', Some (CRead t))
         | _ -> failwith "bad schedule step")
       (split_on '.' steps)
   in
+  let ops = List.filter_map snd parsed in
   let reads = ref (run_sched slots_init ops) in
   let outs =
     List.map
-      (fun o ->
-        match o with
-        | CFail _ -> "rc=-1"
-        | CRead _ ->
+      (fun (k, _) ->
+        match k with
+        | 'f' | 'n' -> "rc=-1"
+        | _ ->
           (match !reads with
            | (_, r) :: rest ->
              reads := rest;
              (match r with None -> "nofail" | Some m -> err_text (int_of_n m - 1))
            | [] -> "?"))
-      ops
+      parsed
   in
   Printf.sprintf "H[%s]" (String.concat " " outs)
 
@@ -318,6 +322,12 @@ let rec run_op (ctx : ctx) (op : string) : string =
   match f.(0) with
   | "H" -> run_schedule f.(2)
   | "HS" -> run_sequential (int_of_string f.(1))
+  | "PF" ->
+    let r1 = run_op ctx ("P," ^ f.(1)) in
+    let rest = String.concat "," (Array.to_list (Array.sub f 2 (Array.length f - 2))) in
+    let r2 = run_op ctx ("F," ^ rest) in
+    let r3 = run_op ctx "b" in
+    r1 ^ "|" ^ r2 ^ "|" ^ r3
   | "K" ->
     let p = unhex f.(1) and off = nat_of_int (int_of_string f.(2)) in
     on_res (check_compressed_name p off) (fun n -> Printf.sprintf "OK:%d" (int_of_nat n))
